@@ -6,4 +6,5 @@ INVARIANT Released
 INVARIANT FreshAfterExec
 INVARIANT DetectionOffKeepsHandle
 INVARIANT ReopenedEvenIfCloseFails
+INVARIANT ReopenedAsRequested
 CHECK_DEADLOCK FALSE
